@@ -541,7 +541,12 @@ pub fn run(args: &Args) -> i32 {
             }
         }
         cases.push(Case { label: "deflated entry of 5 GiB of zeros".into(), items: vec![Item { size: 5 << 30, large: true, method: 8, password: false }], comment: vec![] });
-        cases.push(Case { label: "deflated entry of 2^32 zeros, not large".into(), items: vec![Item { size: G4, large: false, method: 8, password: false }], comment: vec![] });
+    }
+    // uncompressed-size-only overflow: the compressed size stays tiny
+    cases.push(Case { label: "deflated entry of 2^32 zeros, not large".into(), items: vec![Item { size: G4, large: false, method: 8, password: false }], comment: vec![] });
+    if thorough {
+        cases.push(Case { label: "zstd entry of 2^32+1 zeros, not large".into(), items: vec![Item { size: G4 + 1, large: false, method: 93, password: false }], comment: vec![] });
+        cases.push(Case { label: "deflated entry of 2^32-1 zeros, not large".into(), items: vec![Item { size: G4 - 1, large: false, method: 8, password: false }], comment: vec![] });
     }
     let counts: Vec<usize> = vec![0, 1, 65534, 65535, 65536, 65537, 70000];
     ctx.rule = format!(
